@@ -467,16 +467,11 @@ impl Sink {
         }
     }
 
+    /// `ready()` borrows the sink, so the library future is created at the first poll
     pub fn ready(&self) -> BoxFut<SinkRes> {
-        match self {
-            Sink::V3(s) => {
-                let f = s.ready();
-                Box::pin(async move { SinkRes::Ready(f.await) })
-            }
-            Sink::V5(s) => {
-                let f = s.ready();
-                Box::pin(async move { SinkRes::Ready(f.await) })
-            }
+        match self.clone() {
+            Sink::V3(s) => Box::pin(async move { SinkRes::Ready(s.ready().await) }),
+            Sink::V5(s) => Box::pin(async move { SinkRes::Ready(s.ready().await) }),
         }
     }
 
